@@ -3,6 +3,7 @@ package main
 import (
 	"fmt"
 	"go/ast"
+	"go/constant"
 	"go/token"
 	"go/types"
 	"strconv"
@@ -410,6 +411,14 @@ func runC14Req(c *Ctx) {
 					why = "the Default field is not a pointer: presence cannot be told from the empty value"
 				}
 			}
+			// a conjunction: no way of computing the value yields true without the test of the default (the constant a
+			// short-circuit `||` puts in place of its second operand)
+			for _, l := range leaves {
+				if k, isConst := l.(*ssa.Const); isConst && k.Value != nil && k.Value.Kind() == constant.Bool && constant.BoolVal(k.Value) && okDefault {
+					okDefault = false
+					why = "the value is true on a path that does not pass the test of the default (a disjunction instead of `required && default == nil`): an optional input without default counts as required"
+				}
+			}
 			if okDefault {
 				c.ok(construct, st.Pos(), "required && (Default == nil) with a pointer-typed Default")
 			} else {
@@ -482,6 +491,12 @@ func runC14Use(c *Ctx) {
 					rf, idx := rangePart(cc.key)
 					if isDiag && cc.table == pr.decl && rf == pr.call && idx == 1 {
 						relevant = true
+						// the loop over the call site's table visits every entry: it is left only at its header
+						if nx, ok := cc.key.(*ssa.Extract).Tuple.(*ssa.Next); ok {
+							if ex := loopSideExit(nx.Block()); ex != nil {
+								extras = append(extras, "the loop over "+pr.call+" is left from inside its body at "+p.Pos(exitPos(ex))+", so the "+pr.what+"s after that point are never looked up")
+							}
+						}
 						if !outcome {
 							lookupFail = true
 						} else {
@@ -960,6 +975,7 @@ func runC14Type(c *Ctx) {
 			construct := fmt.Sprintf("(*RuleExpression).checkWorkflowCall|typed input check#%d", n)
 			f, base := fieldLoad(call.Call.Value)
 			okRecv := false
+			var sideExit *ssa.BasicBlock
 			if f == "ReusableWorkflowMetadataInput.Type" {
 				// base is the element looked up in m.Inputs with the range key of c.Inputs
 				if ex, ok := base.(*ssa.Extract); ok {
@@ -968,6 +984,9 @@ func runC14Type(c *Ctx) {
 						rf, idx := rangePart(lk.Index)
 						if tf == "ReusableWorkflowMetadata.Inputs" && rf == "WorkflowCall.Inputs" && idx == 1 {
 							okRecv = true
+							if nx, ok := lk.Index.(*ssa.Extract).Tuple.(*ssa.Next); ok {
+								sideExit = loopSideExit(nx.Block())
+							}
 						}
 					}
 				}
@@ -977,6 +996,8 @@ func runC14Type(c *Ctx) {
 				c.bad(construct, in.Pos(), "the diagnostic is emitted when the value IS assignable")
 			case !okRecv:
 				c.bad(construct, in.Pos(), "the declared type does not come from the callee's input of the same name")
+			case sideExit != nil:
+				c.bad(construct, exitPos(sideExit), "the loop over the inputs of the call is left from inside its body (break or return at "+p.Pos(exitPos(sideExit))+"): the values of the inputs behind that point are not checked against their declared types")
 			default:
 				c.ok(construct, in.Pos(), "reported iff the declared type of the same-named input does not accept the value's type")
 			}
